@@ -87,7 +87,7 @@ def replay(obj):
         elif prov == "fnparam":
             r = t1_scalar.with_params(stys, lambda *ps: t1_scalar.outcome(lambda: fns[op](*ps)))
         else:
-            ops = [t1_scalar.build(s, prov, party) for s in stys]
+            ops = t1_scalar.build_all(stys, prov, party)
             r = t1_scalar.outcome(lambda: fns[op](*ops))
         results.append(r)
     distinct = []
@@ -120,7 +120,7 @@ def replay_fold_cell(obj):
         if prov == "fnparam":
             r = t1_scalar.with_params(stys, lambda *ps: t1_scalar.outcome(lambda: fns[op](*ps)))
         else:
-            ops = [t1_scalar.build(s, prov, party) for s in stys]
+            ops = t1_scalar.build_all(stys, prov, party)
             r = t1_scalar.outcome(lambda: fns[op](*ops))
         if r is None or r[0] != "ok" or r[3] == "alias":
             continue
